@@ -900,7 +900,10 @@ pub fn cmd(args: &Args) {
                     for (k, recovery2, inflight) in crash_in_aimed_append(&script_arc, &files, &live, case_seed, deadline) {
                         output_in.add("damage_cases", 1);
                         output_in.add("damage_dmgcrash", 1);
-                        let key2 = format!("dmgcrash|{}", group_key("dmgcrash", case.hit, &recovery2));
+                        // (the verdict depends on whether the damage was a zeroed header - finding D10 - so
+                        // the two kinds never share a group)
+                        let zeroed_header = matches!(&case.ops[0], Op::Zero { len, .. } if *len == 7 && case.cls == "hdr");
+                        let key2 = format!("dmgcrash|{}|{}", zeroed_header, group_key("dmgcrash", case.hit, &recovery2));
                         if groups.contains_key(&key2) {
                             continue;
                         }
